@@ -48,6 +48,12 @@ pub struct Case {
     /// bound for the new statement, so there is no way to decode it: it must not reach the shim.
     #[serde(default)]
     pub tail_unbound: Option<(usize, Vec<Param>)>,
+    /// how the tail's new statement comes about: 0 = PREPARE answered with the still-open id;
+    /// 1 = the client first CLOSEs the old statement, the new one gets the same id; 2 / 3 = CLOSE,
+    /// then the new statement gets another id (old id + 5000) with as many / one fewer parameters
+    /// (state recycled from a closed statement must not carry its types either)
+    #[serde(default)]
+    pub tail_mode: u8,
 }
 
 /// Build the conversation of a statement history and the model's expectation of every
@@ -103,7 +109,18 @@ pub fn build_history(case: &Case) -> (Conversation, Vec<(u32, Vec<(u8, Inner, Op
         }
     }
     if let Some((stmt, params)) = &case.tail_unbound {
-        let (id, n) = case.stmts[*stmt];
+        let (mut id, mut n) = case.stmts[*stmt];
+        let mut params = params.clone();
+        if case.tail_mode >= 1 {
+            cmds.push(Cmd::Close { id });
+        }
+        if case.tail_mode >= 2 {
+            id = id.wrapping_add(5000);
+        }
+        if case.tail_mode >= 3 && n >= 2 {
+            n -= 1;
+            params.truncate(n);
+        }
         cmds.push(Cmd::Prepare { text: Blob::text("another statement") });
         actions.push(Action::Prepare(PrepProg::Reply { id, params: (0..n).map(|i| ColSpec::simple(&format!("q{}", i), T_VAR_STRING, 0)).collect(), cols: vec![] }));
         cmds.push(Cmd::Execute { id, params: params.clone(), send_types: false, flags: 0, iterations: 1 });
@@ -249,7 +266,7 @@ impl Prop for C16 {
         true
     }
     fn rule(&self) -> String {
-        "cases = 2-4 prepared statements with 1-12 parameters and a history of 2-30 executions; each execution picks a statement and either rebinds (new-params-bound = 1 with freshly generated types, or with the bound types changed only in some signedness flags or in a single position) or reuses (flag = 0, no type block; the first execution after a prepare always binds, as the protocol requires); values are encoded per the types in force in the reference model types[stmt]. One execution in six is answered with an error instead of OK; what is bound persists all the same. Oracle: the shim must see exactly the model's (type code, ValueInner) lists for every execution.  In 1 of 5 executions the shim pulls only a prefix of the parameters (possibly none) from the iterator; what that execution bound must persist all the same. One execution in six has one of its parameters streamed beforehand with COM_STMT_SEND_LONG_DATA (types must survive an execution that consumed long data). One history in ten has the shim hand out an id that is still open for a new statement (same parameter count) in mid-history, after which the next execution binds afresh; one in eight ends with such a new statement being executed *without* binding types (parameters encoded per the old statement's types), which must never reach the shim. Non-trivial = some reuse happens after a rebind of a *different* statement (so a single global type table would be caught), or a reuse follows a rebind to different types of the same statement.".into()
+        "cases = 2-4 prepared statements with 1-12 parameters and a history of 2-30 executions; each execution picks a statement and either rebinds (new-params-bound = 1 with freshly generated types, or with the bound types changed only in some signedness flags or in a single position) or reuses (flag = 0, no type block; the first execution after a prepare always binds, as the protocol requires); values are encoded per the types in force in the reference model types[stmt]. One execution in six is answered with an error instead of OK; what is bound persists all the same. Oracle: the shim must see exactly the model's (type code, ValueInner) lists for every execution.  In 1 of 5 executions the shim pulls only a prefix of the parameters (possibly none) from the iterator; what that execution bound must persist all the same. One execution in six has one of its parameters streamed beforehand with COM_STMT_SEND_LONG_DATA (types must survive an execution that consumed long data). One history in ten has the shim hand out an id that is still open for a new statement (same parameter count) in mid-history, after which the next execution binds afresh; one in eight ends with such a new statement being executed *without* binding types (parameters encoded per the old statement's types), which must never reach the shim (half of these tails first CLOSE the old statement, and a third then prepare the new one under another id, with the same or one fewer parameters). Non-trivial = some reuse happens after a rebind of a *different* statement (so a single global type table would be caught), or a reuse follows a rebind to different types of the same statement.".into()
     }
     fn assumptions(&self) -> Vec<String> {
         vec!["the recording shim iterates all parameters of every execution, as every caller in the repository does (the library parses the type block lazily inside the iterator)".into()]
@@ -332,7 +349,8 @@ impl Prop for C16 {
         } else {
             None
         };
-        Case { stmts, ops, tail_unbound }
+        let tail_mode = if tail_unbound.is_some() { g.weighted(&[2, 2, 1, 1]) as u8 } else { 0 };
+        Case { stmts, ops, tail_unbound, tail_mode }
     }
     fn exec(&self, case: &Case) -> Exec {
         let mut ex = Exec::default();
@@ -366,7 +384,7 @@ impl Prop for C16 {
             ex.class("open-id-prepared-anew-mid-history");
         }
         if case.tail_unbound.is_some() {
-            ex.class("tail:new-statement-under-open-id-executed-without-types");
+            ex.class(if case.tail_mode == 0 { "tail:new-statement-under-open-id-executed-without-types" } else if case.tail_mode == 1 { "tail:closed-id-prepared-anew-executed-without-types" } else { "tail:after-close-another-id-prepared-executed-without-types" });
             ex.nontrivial = true;
         }
         judge_history("c16", case, &mut ex, false);
